@@ -153,6 +153,7 @@ pub fn run_case(kind: &str, t: &mut Toks) -> String {
             )
         }
         "tess" => crate::tess::run(t),
+        "seq" => crate::tess::run_seq(t),
         "clip" => crate::clip::run(t),
         "knn" => {
             // knn <anchor:3> <width:3> <max_cell_width> <k> <n> <points:3n>
